@@ -71,12 +71,20 @@ package job
 //@   ensures [C11] running-counter-bounded: 0 <= result.Status.RunningTasks && result.Status.RunningTasks <= len(result.Status.Tasks)
 //@   ensures [C11] cached-job-untouched: *rj == old(*rj)
 
-//@ extern func UpdateTaskRefDeletedStatusIfNotSet
-//@   params rj, taskName, status
+// sets the DeletedStatus of the named task if it has none yet; every other field of every recorded task is kept (C09, C12)
+//@ func UpdateTaskRefDeletedStatusIfNotSet
+//@   tags C09, C12, C13
+//@   requires rj != nil
 //@   fresh result
-//@   ensures result != nil && result.Name == rj.Name && result.Namespace == rj.Namespace && result.UID == rj.UID && result.Spec == rj.Spec
+//@   loop 1 invariant -1 <= rangeindex && rangeindex < len(newRj.Status.Tasks) && len(newTaskRefs) == rangeindex + 1
+//@   loop 1 invariant forall k int :: {newTaskRefs[k]} 0 <= k && k <= rangeindex ==> newTaskRefs[k].Name == rj.Status.Tasks[k].Name
+//@        && (rj.Status.Tasks[k].DeletedStatus != nil ==> newTaskRefs[k].DeletedStatus != nil)
+//@        && (rj.Status.Tasks[k].Name == taskName ==> newTaskRefs[k].DeletedStatus != nil)
+//@   ensures [C09,C13] identity-kept: result != nil && result.Name == rj.Name && result.Namespace == rj.Namespace && result.UID == rj.UID && result.Spec == rj.Spec
 //@        && execution.sameStrs(result.Finalizers, rj.Finalizers) && result.DeletionTimestamp == rj.DeletionTimestamp && result.Status.StartTime == rj.Status.StartTime
-//@        && len(result.Status.Tasks) == len(rj.Status.Tasks) && (forall k int :: 0 <= k && k < len(rj.Status.Tasks) ==> result.Status.Tasks[k].Name == rj.Status.Tasks[k].Name)
+//@   ensures [C09] no-task-forgotten: len(result.Status.Tasks) == len(rj.Status.Tasks) && (forall k int :: {result.Status.Tasks[k]} 0 <= k && k < len(rj.Status.Tasks) ==> result.Status.Tasks[k].Name == rj.Status.Tasks[k].Name)
+//@   ensures [C12] named-task-has-a-deleted-status: forall k int :: {result.Status.Tasks[k]} 0 <= k && k < len(rj.Status.Tasks) && rj.Status.Tasks[k].Name == taskName ==> result.Status.Tasks[k].DeletedStatus != nil
+//@   ensures [C09] cached-job-untouched: *rj == old(*rj)
 
 // ---- task_status.go: GetTaskRef ---------------------------------------------------------------------------------------
 // (C11) recorded running / finish times are never cleared; (C09) a DeletedStatus that was set is kept unless the task reports its own final status.
